@@ -601,7 +601,9 @@ func (p *printer) str(t *Term) string {
 		// name it so that shared sub-DAGs are printed once
 		n := name
 		srt := t.sort.String()
-		if strings.HasPrefix(t.op, "(_ int2bv") {
+		if t.op == "fp.to_real" || t.op == "to_real" {
+			srt = "Real"
+		} else if strings.HasPrefix(t.op, "(_ int2bv") {
 			srt = "(_ BitVec " + strings.TrimSuffix(strings.TrimPrefix(t.op, "(_ int2bv "), ")") + ")"
 		} else if strings.HasPrefix(t.op, "bv") && t.op != "bv2nat" {
 			srt = p.bvSort(t)
